@@ -134,77 +134,77 @@ def load_selftests(prop):
     return out
 
 
-def self_validate(prop, rule_ids):
-    """Apply each mutant to a scratch copy of the repository sources (outside /repo and /verif), extract facts and
-    require the property's rules to fire. Returns (results list, failures list)."""
+def _selfval_one(prop, rule_ids, kind, mid, patch, wid):
+    """Apply one recorded variant to a scratch copy of the sources (outside /repo and /verif), extract facts into this
+    worker's own target directory and run the property's rules.  Returns a result dict."""
     import shutil
     import subprocess
     import tempfile
-    results, failures = [], []
     repo = os.environ.get("VERIF_REPO", "/repo")
-    for m in load_selftests(prop):
-        tmp = tempfile.mkdtemp(prefix="verif-selftest.")
+    tmp = tempfile.mkdtemp(prefix="verif-selftest.")
+    key = "mutant" if kind == "mutant" else "benign"
+    try:
+        r = os.path.join(tmp, "repo")
+        os.makedirs(r)
+        for x in ("src", "Cargo.toml", "Cargo.lock"):
+            sx = os.path.join(repo, x)
+            if os.path.isdir(sx):
+                shutil.copytree(sx, os.path.join(r, x))
+            elif os.path.exists(sx):
+                shutil.copy(sx, os.path.join(r, x))
+        pr = subprocess.run(["patch", "-p1", "-s", "-i", patch], cwd=r, capture_output=True, text=True)
+        if pr.returncode != 0:
+            return {key: mid, "outcome": "patch-does-not-apply (source changed since the variant was recorded); skipped"}
         try:
-            r = os.path.join(tmp, "repo")
-            os.makedirs(r)
-            for x in ("src", "Cargo.toml", "Cargo.lock"):
-                sx = os.path.join(repo, x)
-                if os.path.isdir(sx):
-                    shutil.copytree(sx, os.path.join(r, x))
-                elif os.path.exists(sx):
-                    shutil.copy(sx, os.path.join(r, x))
-            pr = subprocess.run(["patch", "-p1", "-s", "-i", m["patch"]], cwd=r, capture_output=True, text=True)
-            if pr.returncode != 0:
-                results.append({"mutant": m["id"], "outcome": "patch-does-not-apply (source changed since the mutant was recorded); skipped"})
-                continue
-            try:
-                raw, info = factsmod.extract(r, "log")
-            except factsmod.ExtractError as e:
-                results.append({"mutant": m["id"], "outcome": "does-not-compile; skipped"})
-                continue
-            inst, _ = run_rules(Facts(raw), rule_ids, "log")
-            new, _old = classify(inst, prop)
+            raw, info = factsmod.extract(r, "log", target_dir=os.path.join(factsmod.CACHE, "target-log-w%d" % wid))
+        except factsmod.ExtractError:
+            return {key: mid, "outcome": "does-not-compile; skipped"}
+        inst, _ = run_rules(Facts(raw), rule_ids, "log")
+        new, _old = classify(inst, prop)
+        if kind == "mutant":
             fired = sorted({i["rule"] for i in new})
-            if fired:
-                results.append({"mutant": m["id"], "outcome": "detected", "rules": fired})
-            else:
-                results.append({"mutant": m["id"], "outcome": "MISSED"})
-                failures.append(m["id"])
-        finally:
-            shutil.rmtree(tmp, ignore_errors=True)
-    # benign variants: behaviour-preserving rewrites of the sources on which no rule of this property may fire
+            return {key: mid, "outcome": "detected", "rules": fired} if fired else {key: mid, "outcome": "MISSED"}
+        und = [i for i in inst if i["status"] == "undecided"]
+        if new or und:
+            return {key: mid, "outcome": "FALSE-ALARM", "rules": sorted({i["rule"] for i in new + und})}
+        return {key: mid, "outcome": "silent"}
+    finally:
+        shutil.rmtree(tmp, ignore_errors=True)
+
+
+def self_validate(prop, rule_ids):
+    """Thorough tier: every recorded mutant of this property (seeded changes + reverted fixes) must make the property's
+    rules fire, and every benign variant (behaviour-preserving rewrite) must leave them silent.  Variants are processed by
+    a small pool of worker processes, each with its own cargo target directory.  Returns (results, failures)."""
+    import concurrent.futures
+    import multiprocessing
+    import queue
+    tasks = [("mutant", m["id"], m["patch"]) for m in load_selftests(prop)]
     ip = os.path.join(VERIF, "selftest", "index.json")
     benign = json.load(open(ip)).get("benign", []) if os.path.exists(ip) else []
-    for m in benign:
-        tmp = tempfile.mkdtemp(prefix="verif-benign.")
+    tasks += [("benign", m["id"], os.path.join(VERIF, m["patch"])) for m in benign]
+    nw = max(1, min(int(os.environ.get("VERIF_WORKERS", "6")), len(tasks)))
+    ids = queue.Queue()
+    for k in range(nw):
+        ids.put(k)
+    ctx = multiprocessing.get_context("fork")
+
+    def run(task):
+        wid = ids.get()
         try:
-            r = os.path.join(tmp, "repo")
-            os.makedirs(r)
-            for x in ("src", "Cargo.toml", "Cargo.lock"):
-                sx = os.path.join(repo, x)
-                if os.path.isdir(sx):
-                    shutil.copytree(sx, os.path.join(r, x))
-                elif os.path.exists(sx):
-                    shutil.copy(sx, os.path.join(r, x))
-            pr = subprocess.run(["patch", "-p1", "-s", "-i", os.path.join(VERIF, m["patch"])], cwd=r, capture_output=True, text=True)
-            if pr.returncode != 0:
-                results.append({"benign": m["id"], "outcome": "patch-does-not-apply (source changed since the variant was recorded); skipped"})
-                continue
-            try:
-                raw, info = factsmod.extract(r, "log")
-            except factsmod.ExtractError:
-                results.append({"benign": m["id"], "outcome": "does-not-compile; skipped"})
-                continue
-            inst, _ = run_rules(Facts(raw), rule_ids, "log")
-            new, _old = classify(inst, prop)
-            und = [i for i in inst if i["status"] == "undecided"]
-            if new or und:
-                results.append({"benign": m["id"], "outcome": "FALSE-ALARM", "rules": sorted({i["rule"] for i in new + und})})
-                failures.append("benign:" + m["id"])
-            else:
-                results.append({"benign": m["id"], "outcome": "silent"})
+            with concurrent.futures.ProcessPoolExecutor(max_workers=1, mp_context=ctx) as ex:
+                return ex.submit(_selfval_one, prop, rule_ids, task[0], task[1], task[2], wid).result()
         finally:
-            shutil.rmtree(tmp, ignore_errors=True)
+            ids.put(wid)
+
+    results, failures = [], []
+    with concurrent.futures.ThreadPoolExecutor(max_workers=nw) as tp:
+        for res in tp.map(run, tasks):
+            results.append(res)
+            if res.get("outcome") == "MISSED":
+                failures.append(res["mutant"])
+            if res.get("outcome") == "FALSE-ALARM":
+                failures.append("benign:" + res["benign"])
     return results, failures
 
 
@@ -330,7 +330,8 @@ def check_property(prop, rule_ids, tier, level="other", explanation="", assumpti
         "exhaustive": True,
     }
     if selfval is not None:
-        cov["self_validation"] = {"mutants": len(selfval), "detected": sum(1 for x in selfval if x["outcome"] == "detected"), "results": selfval}
+        cov["self_validation"] = {"mutants": sum(1 for x in selfval if "mutant" in x), "detected": sum(1 for x in selfval if x["outcome"] == "detected"),
+                                  "benign_variants": sum(1 for x in selfval if "benign" in x), "silent": sum(1 for x in selfval if x["outcome"] == "silent"), "results": selfval}
         cov["disagreements_checked"] = sum(1 for x in selfval if x["outcome"] == "detected")
     if proof:
         cov.update(proof(instances))
